@@ -15,12 +15,12 @@ def gen(rng: random.Random, tier: str):
         for j in range(rng.randint(0, 2)):
             lits.append({"name": f"lit{j}", "value": rng.randint(-5, 5)}); nodes.append(f"lit{j}")
         for j in range(rng.randint(1, 5)):
-            kind = rng.choice(list(FUNCS) + ["bias", "pop", "topn", "cls-nocfg", "inst-nocfg", "cls-bias", "opt", "cls-opt"])
+            kind = rng.choice(list(FUNCS) + ["bias", "pop", "topn", "cls-nocfg", "inst-nocfg", "cls-bias", "opt", "cls-opt", "cls-opt-default"])
             if kind in FUNCS:
                 params = FUNCS[kind]
                 edges = [[p, rng.choice(nodes)] for p in params if rng.random() < 0.8]
                 comps.append({"name": f"c{j}", "kind": kind, "edges": edges, "setting": None})
-            elif kind in ("cls-nocfg", "inst-nocfg"):
+            elif kind in ("cls-nocfg", "inst-nocfg", "cls-opt-default"):
                 comps.append({"name": f"c{j}", "kind": kind, "edges": [["x", rng.choice(nodes)]] if rng.random() < 0.8 else [], "setting": None})
             elif kind in ("opt", "cls-opt"):
                 comps.append({"name": f"c{j}", "kind": kind, "edges": [["x", rng.choice(nodes)]] if rng.random() < 0.8 else [], "setting": rng.choice([1, 2, 3])})
@@ -34,6 +34,9 @@ def gen(rng: random.Random, tier: str):
             leaves = [n for n in nodes if not n.startswith("c")]
             comps.append({"name": f"c{len(comps)}", "kind": "fn_three", "edges": [["z", rng.choice(leaves)], ["y", rng.choice(leaves)]], "setting": None})
             defaults = [["x", rng.choice(leaves)]]
+        if k % 6 == 4:
+            # directed: two literal values handed to `connect` directly — whichever is declared first, the configuration is the same
+            comps.append({"name": f"c{len(comps)}", "kind": "fn_three", "edges": [["x", {"lit": rng.randint(1, 4)}], ["y", {"lit": rng.randint(5, 9)}]], "setting": None})
         cnames = [c["name"] for c in comps]
         yield {"name": rng.choice([None, "pipe", "αβ pipe"]), "version": rng.choice([None, "1.0"]), "inputs": inputs, "literals": lits, "comps": comps,
                "aliases": [[f"al{i}", rng.choice(cnames)] for i in range(rng.randint(0, 3))],
@@ -58,6 +61,7 @@ def build(case: dict, decl_seed: int | None = None, tweak: str | None = None):
         s = c["setting"]
         if tweak == "setting" and s is not None and not any(cc["setting"] is not None for cc in case["comps"][:ci]): s = s + 10
         if c["kind"] == "cls-nocfg": h[c["name"]] = pb.add_component(c["name"], lc.NoCfgComp); continue          # a component class, to be instantiated by the pipeline
+        if c["kind"] == "cls-opt-default": h[c["name"]] = pb.add_component(c["name"], lc.OptComp); continue          # a configurable class, given no configuration: its defaults
         if c["kind"] == "cls-bias": h[c["name"]] = pb.add_component(c["name"], BiasScorer, {"damping": s}); continue
         # optional settings: an odd setting makes `level` explicitly None (its default is 5)
         if c["kind"] == "cls-opt": h[c["name"]] = pb.add_component(c["name"], lc.OptComp, {"level": None if s % 2 else s, "label": None if s < 3 else "t"}); continue
@@ -70,7 +74,7 @@ def build(case: dict, decl_seed: int | None = None, tweak: str | None = None):
         edges = list(c["edges"])
         if tweak == "edge" and edges and c is next(cc for cc in case["comps"] if cc["edges"]): edges = edges[:-1]
         if r: r.shuffle(edges)
-        if edges: pb.connect(h[c["name"]], **{p: h[n] for p, n in edges})
+        if edges: pb.connect(h[c["name"]], **{p: (n["lit"] if isinstance(n, dict) else h[n]) for p, n in edges})          # {"lit": v}: a literal value handed to `connect` directly
     aliases = list(case["aliases"])
     if tweak == "alias": aliases = aliases + [["extra-alias", case["comps"][0]["name"]]]
     if r: r.shuffle(aliases)
@@ -101,6 +105,18 @@ def run(case: dict, lean: Lean) -> Outcome:
     corr = real == model and hashlib.sha256(model.encode()).hexdigest() == hash0
     failed = []; key = None
     if not corr: failed.append("canonical text / hash differ from the model")
+    failed_doc = None
+    # the document says of every component what the built component actually has
+    try:
+        pdoc = pb.build()
+        for c in case["comps"]:
+            comp = getattr(pdoc.node(c["name"]), "component", None); live = getattr(comp, "config", None)
+            live = None if live is None else (live.model_dump(mode="json") if hasattr(live, "model_dump") else live)
+            doc = cfg.components[c["name"]].config
+            if (dict(doc) if doc else {}) != (dict(live) if live else {}): failed_doc = f"document records settings {doc!r} for {c['name']}, the built component has {live!r}"; break
+        else: failed_doc = None
+    except Exception as e: failed_doc = f"comparing the document with the built components raised {type(e).__name__}"
+    if failed_doc: failed.append(failed_doc)
     # round trips: direct, through JSON, clone
     full = pb.build_config()
     for how, doc in (("direct", full), ("json", json.loads(full.model_dump_json()))):
@@ -219,7 +235,7 @@ def shrink(case: dict):
             or case["default"] == case["comps"][i]["name"]
         if not used: c = dict(case); c["comps"] = case["comps"][:i] + case["comps"][i + 1:]; yield c
     if case["aliases"]: c = dict(case); c["aliases"] = []; yield c
-    if case["literals"] and not any(n.startswith("lit") for cc in case["comps"] for _, n in cc["edges"]): c = dict(case); c["literals"] = []; yield c
+    if case["literals"] and not any(isinstance(n, str) and n.startswith("lit") for cc in case["comps"] for _, n in cc["edges"]): c = dict(case); c["literals"] = []; yield c
 
 SPEC = CheckSpec(
     pid="C13",
